@@ -236,8 +236,11 @@ func (view *View) group(ctx context.Context, scope *ReferenceScope, items []pars
 	for _, item := range items {
 		switch item.(type) {
 		case parser.FieldReference, parser.ColumnNumber:
-			idx, _ := view.Header.SearchIndex(item)
-			view.Header[idx].IsGroupKey = true
+			// A key that is not a field of this view is a field of an outer query, or, when there are no records
+			// to evaluate it for, a name that was never resolved: there is no header field to mark.
+			if idx, err := view.Header.SearchIndex(item); err == nil {
+				view.Header[idx].IsGroupKey = true
+			}
 		}
 	}
 	return nil
